@@ -25,7 +25,38 @@ def registry():
     return [(_re.compile(p), shared_model) for p in SHARED_PATTERNS]
 
 
+LEAVES = [('MimeType::detect_mime_type', 'mime')]
+
+
+def case_leaf(prog, params):
+    """functions that the pipeline obligations replace by an uninterpreted result (detect_mime_type) are executed here on their own
+    under the same shared-state monitor, so that state hidden inside them is not missed"""
+    ex = H.new_executor(prog)
+    ex.models = registry() + ex.models; ex.model_cache = {}
+    cons = []
+    from common import printable
+    name = SymStr.fresh('leafname', params['n'], cons, exact_len=params['n'], alphabet=printable)
+    st = State(); st.pc = list(cons)
+    outs = ex.run_fn(params['fn'], [name], st)
+    res = {'violations': [], 'inconclusive': [], 'samples': [], 'kinds': {}, 'env_reads': set(), 'env_writes': 0}
+    for o in outs:
+        k = outcome_kind(o.outcome); res['kinds'][k] = res['kinds'].get(k, 0) + 1
+        if o.outcome[0] == 'stop' and o.outcome[1] in ('shared-state', 'fs-mutation'):
+            r, m = ex.check(o.pc)
+            if r != 'sat': continue
+            what = str(o.outcome[2])
+            res['violations'].append({'key': 'C08:%s:%s' % (o.outcome[1], _re.sub(r'::<.*', '', what.split(' at ')[0].split(' reached')[0])[:60]),
+                                      'text': '%s touches shared mutable state: %s' % (params['fn'], what),
+                                      'witness': {'kind': 'leaf', 'fn': params['fn'], 'op': params['op'], 'arg': model_bytes(m, name).decode('latin1')}})
+        elif o.outcome[0] == 'stop' and not o.outcome[1].startswith('domain:'):
+            res['inconclusive'].append({'status': o.outcome[1], 'error': str(o.outcome[2])[:200]})
+    res.update(H.ex_summary(ex)); res['env_reads'] = []
+    res['samples'].append({'case': params, 'kinds': res['kinds']})
+    return res
+
+
 def case(prog, params):
+    if params.get('kind') == 'leaf': return case_leaf(prog, params)
     ex = new_ex(prog)
     if params.get('kind') == 'multipart': ex.fork_read_until = 6
     ex.models = registry() + ex.models; ex.model_cache = {}
@@ -75,7 +106,8 @@ def main():
     prog = chk.load()
     lem = lemmas.lemma_filter_string(prog, 5); chk.extra['lemmas'] = [lem]
     cases = C10.shapes(chk.tier)
-    chk.bounds = {'request shapes': cases}
+    cases = cases + [dict(kind='leaf', fn=fn, op=op, n=n) for fn, op in LEAVES for n in ((1, 2, 3, 4) if chk.tier == 'quick' else (1, 2, 3, 4, 5, 6))]
+    chk.bounds = {'request shapes': cases, 'leaf functions executed on their own (uninterpreted in the pipeline)': [l[0] for l in LEAVES]}
     chk.assumptions = ['isolation is inferred from the absence of shared mutable state on every explored path (data-race-freedom argument); interleavings inside handlers are not explored',
                        'the two modelled nondeterminisms are the clock and HashMap iteration order, as the property exempts',
                        'the closure handed to pool.execute captures stream, connection and app by move (checked in MIR below)']
@@ -103,6 +135,21 @@ def main():
     def replay(v):
         w = v['witness']
         if w.get('kind') == 'static': return {'reproduced': True, 'detail': 'definition present in the MIR of the current tree'}
+        if w.get('kind') == 'leaf':
+            # native confirmation: the result for a name after another call in the same process must equal its result in a fresh process
+            a = w['arg']
+            probes = [a, a.swapcase(), a.upper(), a.lower(), 'x.SVG', 'x.svg', 'a.TXT', 'a.txt', '.txt', 'b', 'X.HTML', 'x.html', 'x.Js', 'x.js']
+            alone = {}
+            for q in probes:
+                st, out = chk.oracle.run([(w['op'], [q.encode('latin1')])])[0]
+                alone[q] = (st, out)
+            for p_ in probes:
+                for q in probes:
+                    if p_ == q: continue
+                    r = chk.oracle.run([(w['op'], [p_.encode('latin1')]), (w['op'], [q.encode('latin1')])])
+                    if len(r) == 2 and r[1] != alone[q]:
+                        return {'reproduced': True, 'first': p_, 'then': q, 'alone': str(alone[q]), 'after_first': str(r[1])}
+            return {'reproduced': False, 'detail': 'no probe pair showed a dependence on call history'}
         # two requests on the same thread: the victim's response after another request must equal its response alone
         reqb = b'POST /form-url-encoded-enctype-post-method HTTP/1.1\r\nContent-Type: application/x-www-form-urlencoded\r\n\r\nx=1'
         other = b'POST /form-url-encoded-enctype-post-method HTTP/1.1\r\nContent-Type: application/x-www-form-urlencoded\r\n\r\nsecret=alice-0123456789-0123456789-0123456789'
